@@ -177,9 +177,7 @@ func (ev *Evaluator) eval(t *term.Term) interface{} {
 		return index(x, i)
 	case term.KSlice:
 		x := ev.eval(t.Sub[0])
-		// the definition fixes no evaluation order between the bounds and
-		// the library evaluates "to" before "from"; harness bounds with calls
-		// are therefore avoided by the generators. Evaluate from, then to.
+		// operands left to right: the object, the lower bound, the upper one
 		var from, to interface{}
 		if t.Sub[1] != nil {
 			from = ev.eval(t.Sub[1])
